@@ -291,6 +291,64 @@ def wire_names(text_closure):
     return sorted(set(re.findall(r'rename = "((?:[^"\\]|\\.)*)"', text_closure or "")) | set(re.findall(r'alias = "((?:[^"\\]|\\.)*)"', text_closure or "")))
 
 
+def scenarios():
+    """(name, schemas of the spec alone, schemas ADDED by the unrelated component, locator of the use site)"""
+    S = {"type": "string"}
+    strict = {"Strict": {"type": "string", "enum": ["a", "b"]}}
+    return [
+        ("snake-case component vs inline item type name",
+         {"order": {"type": "object", "properties": {"items": {"type": "array", "items": {"type": "object", "required": ["quantity"], "properties": {"quantity": {"type": "integer"}}}}}}},
+         {"order_item": {"type": "object", "required": ["sku"], "properties": {"sku": S}}}, ("field", "Order", "items")),
+        ("kebab-case component vs inline member type name",
+         {"Cart": {"type": "object", "properties": {"line": {"type": "object", "required": ["qty"], "properties": {"qty": {"type": "integer"}}}}}},
+         {"cart-line": {"type": "object", "required": ["sku"], "properties": {"sku": S}}}, ("field", "Cart", "line")),
+        ("titled nullable primitive vs component named like the title",
+         {"Contact": {"type": "object", "properties": {"address": {"title": "Address", "type": ["string", "null"]}}}},
+         {"Address": {"type": "object", "properties": {"street": S}}}, ("field", "Contact", "address")),
+        ("titled string vs component named like the title",
+         {"Contact": {"type": "object", "properties": {"address": {"title": "Address", "type": "string"}}}},
+         {"Address": {"type": "object", "properties": {"street": S}}}, ("field", "Contact", "address")),
+        ("relaxed enum (anyOf string | enum) vs strict enum with the same values",
+         {"HolderR": {"type": "object", "properties": {"level": {"anyOf": [S, {"type": "string", "enum": ["a", "b"]}]}}}}, strict, ("field", "HolderR", "level")),
+        ("oneOf enum | integer vs strict enum with the same values",
+         {"HolderU": {"type": "object", "properties": {"v": {"oneOf": [{"type": "string", "enum": ["a", "b"]}, {"type": "integer"}]}}}}, strict, ("field", "HolderU", "v")),
+        ("inline enum vs named enum with a superset of values",
+         {"HolderE": {"type": "object", "properties": {"v": {"type": "string", "enum": ["a", "b"]}}}}, {"Wide": {"type": "string", "enum": ["a", "b", "c"]}}, ("field", "HolderE", "v")),
+    ]
+
+
+def scenario_part(d, viol):
+    scs = scenarios()
+    wrap = lambda sch: {"openapi": "3.1.0", "info": {"title": "t", "version": "1"}, "paths": {}, "components": {"schemas": sch}}
+
+    def gen(spec, path):
+        os.makedirs(path, exist_ok=True)
+        sp = os.path.join(path, "spec.json")
+        json.dump(spec, open(sp, "w"))
+        out = os.path.join(path, "out.rs")
+        rc, txt = vlib.oas(["generate", "types", "-i", sp, "-o", out, "-q", "--all-schemas", "--no-helpers"], timeout=120)
+        return rc, txt[-300:], (open(out).read() if rc == 0 and os.path.exists(out) else "")
+    n = 0
+    for k, (name, alone, added, loc) in enumerate(scs):
+        ra = gen(wrap(alone), os.path.join(d, f"sc{k}", "alone"))
+        rc_ = gen(wrap(dict(alone, **added)), os.path.join(d, f"sc{k}", "comb"))
+        if ra[0] != 0 or rc_[0] != 0:
+            viol.append(({"scenario": name}, wrap(dict(alone, **added)), f"scenario '{name}': generation failed (alone rc={ra[0]}, combined rc={rc_[0]} {rc_[1][-120:]})", None))
+            continue
+        n += 1
+        ta, tc = site_text(ra[2], loc), site_text(rc_[2], loc)
+        if ta is None or tc is None:
+            viol.append(({"scenario": name}, wrap(dict(alone, **added)), f"scenario '{name}': use site {loc} not found (alone: {ta is not None}, combined: {tc is not None})", None))
+        elif ta != tc:
+            viol.append(({"scenario": name}, wrap(dict(alone, **added)), f"scenario '{name}': adding the component {sorted(added)} changes the type at {loc}: {first_diff(tc, ta)}", classify_scenario(name)))
+    return n
+
+
+def classify_scenario(name):
+    return {"relaxed enum (anyOf string | enum) vs strict enum with the same values": "relaxed-enum-resolves-to-strict",
+            "oneOf enum | integer vs strict enum with the same values": "union-with-enum-member-resolves-to-enum"}.get(name)
+
+
 def main(tier, seed, replay=None):
     res = Result("C13", tier, seed)
     vlib.build_repo()
@@ -369,7 +427,8 @@ def main(tier, seed, replay=None):
         tb = site_text(r["comb"][2], locs[1])
         if ta is not None and ta == tb:
             n_same_type += 1
-    res.counts.update({"evaluations": len(cases) * 3, "distinct_nontrivial": len(cases) - gen_fail, "comparisons": n_cmp, "pairs_in_full_matrix": n_all,
+    n_sc = scenario_part(d, viol)
+    res.counts.update({"scenarios": n_sc, "evaluations": len(cases) * 3, "distinct_nontrivial": len(cases) - gen_fail, "comparisons": n_cmp, "pairs_in_full_matrix": n_all,
                        "traces_validated_against_impl": n_cmp, "exhaustive": tier != "quick", "generator_failures": gen_fail,
                        "site_pairs_with_identical_normalised_types": n_same_type,
                        "rule": "near-equal schema pairs (6 families: string / integer / mixed enums, objects, unions, arrays; facets: value set, value order, value JSON type, member type, required set, key order, description only, extra inline variant, discriminator, oneOf vs anyOf) x ordered pairs of 7 use sites (inline property, named schema, array item, nested inline object, query parameter, response body, request body); for each case the combined spec and the two single-schema specs are generated; the normalised closure of the type named at each use site (docs and derives erased, emitted type names replaced by placeholders in traversal order) must be identical in the combined and the single-schema output"})
@@ -401,6 +460,8 @@ def main(tier, seed, replay=None):
 
 
 def desc(c):
+    if "scenario" in c:
+        return "scenario " + c["scenario"]
     return f"{c['family']}[{c['i']}]@{c['sa']} + {c['family']}[{c['j']}]@{c['sb']}"
 
 
